@@ -208,6 +208,7 @@ static enum DeviceState sto_set(struct Storage* self_, const struct StoragePrope
     (void)p;
     detsched_yield("sto.set");
     g_dev[s->dev].calls_after_close += g_dev[s->dev].closed;
+    g_dev[s->dev].needs_config = 0;
     drvlog(s->dev, "set", "-> armed");
     return DeviceState_Armed;
 }
@@ -219,6 +220,13 @@ static enum DeviceState sto_start(struct Storage* self_)
     struct MockStorage* s = (struct MockStorage*)self_;
     detsched_yield("sto.start");
     g_dev[s->dev].calls_after_close += g_dev[s->dev].closed;
+    if (g_dev[s->dev].needs_config) g_dev[s->dev].start_unconfigured++;
+    if (g_mock.sto_start_fails[s->dev] > 0) {
+        g_mock.sto_start_fails[s->dev]--;
+        g_dev[s->dev].needs_config = 1;
+        drvlog(s->dev, "start", "-> awaiting (fault)");
+        return DeviceState_AwaitingConfiguration;
+    }
     s->run = g_dev[s->dev].run + 1; s->nappend = 0;
     g_dev[s->dev].starts++; g_dev[s->dev].running = 1; g_dev[s->dev].run = s->run; g_dev[s->dev].failed = 0;
     if (g_dev[s->dev].starts - g_dev[s->dev].stops > 1) g_dev[s->dev].start_while_running++;
@@ -234,6 +242,11 @@ static enum DeviceState sto_stop(struct Storage* self_)
     g_dev[s->dev].calls_after_close += g_dev[s->dev].closed;
     if (!g_dev[s->dev].running) g_dev[s->dev].stop_without_start++;
     g_dev[s->dev].stops++; g_dev[s->dev].running = 0;
+    if (g_mock.sto_stop_await[s->dev]) {
+        g_dev[s->dev].needs_config = 1;
+        drvlog(s->dev, "stop", "-> awaiting");
+        return DeviceState_AwaitingConfiguration;
+    }
     drvlog(s->dev, "stop", "-> armed");
     return DeviceState_Armed;
 }
